@@ -13,9 +13,10 @@ let servers : (int * srvconf) list ref = ref []
 let realms : (int * realm) list ref = ref []
 let st : state option ref = ref None
 let display : (int, int) Hashtbl.t = Hashtbl.create 64
+let diverged = ref false   (* implementation and model already differ in this case: state-dependent specs are meaningless *)
 
 let reset () =
-  options := opt_default; clients := []; servers := []; realms := []; st := None; Hashtbl.reset display
+  options := opt_default; clients := []; servers := []; realms := []; st := None; Hashtbl.reset display; diverged := false
 
 let b01 s = (s = "1")
 let rw_opt (name : string) : rewrite option = if name = "-" then None else Hashtbl.find_opt rewrites name
@@ -173,6 +174,19 @@ let check_hidden opidx (sent : n list) (delivered : n list) ~ssecret ~sauth ~cse
           end) hs hd
   end
 
+(* does a rewrite block name the hidden attributes (then their delivered form is a configured transformation)? *)
+let rw_touches_hidden (rw : rewrite option) : bool =
+  match rw with
+  | None -> false
+  | Some w ->
+      w.rw_whitelist
+      || (match w.rw_rm with Some l -> List.exists (fun t -> int_of_n t = 26 || int_of_n t = 69) l | None -> false)
+      || (match w.rw_rmv with Some l -> List.exists (fun (v, _) -> int_of_n v = 311) l | None -> false)
+      || List.exists (fun m -> int_of_n m.mod_t = 69) w.rw_mod
+      || List.exists (fun m -> int_of_n m.mod_vendor = 311) w.rw_modv
+      || List.exists (fun a -> int_of_n a.tlv_t = 69) (w.rw_add @ w.rw_sup)
+      || List.exists (fun a -> int_of_n a.tlv_t = 26 && List.length a.tlv_v > 4 && List.map int_of_n (take 4 a.tlv_v) = [ 0; 0; 1; 55 ]) (w.rw_add @ w.rw_sup)
+
 let impl_events (impl_all : string list list) (kind : string) : string list list =
   List.filter_map (function k :: rest when k = kind -> Some rest | _ -> None) impl_all
 
@@ -199,6 +213,7 @@ let do_reply opidx impl_all s srv now rnd (pkt : n list) =
   (* the request this reply would answer, as the model sees it *)
   (let id = match pkt with _ :: i :: _ -> int_of_n i | _ -> 0 in
    let sv = get_server s (nat_of_int srv) in
+   if not !diverged then
    match (List.nth sv.s_slots id).sl_rq with
    | Some h -> (match get_rq s h with
        | Some r ->
@@ -206,8 +221,19 @@ let do_reply opidx impl_all s srv now rnd (pkt : n list) =
                | [ cl; p ] ->
                    spec opidx "C02_to_originator" (Some (nat_of_int (int_of_string cl)) = r.rq_from) "";
                    check_reply_out opidx (int_of_string cl) (bytes_of_hex p) r.rq_rqauth (int_of_n r.rq_rqid);
+                   (match r.rq_origuser with
+                    | Some ou when wf_packet (bytes_of_hex p) ->
+                        (match List.find_opt (fun (t, _, _) -> t = 1) (attr_list (bytes_of_hex p)) with
+                         | Some (_, _, v) ->
+                             (* only when the client's rewriteOut cannot touch User-Name itself *)
+                             let named = match List.assoc_opt (int_of_string cl) !clients with
+                               | Some cc -> cc.cc_rwout <> None
+                               | None -> true in
+                             if not named then spec opidx "C02_username_restored" (v = ou) (hex_of_bytes v)
+                         | None -> ())
+                    | _ -> ());
                    (match r.rq_buf, List.assoc_opt (int_of_string cl) !clients with
-                    | Some fb, Some cc ->
+                    | Some fb, Some cc when not (rw_touches_hidden cc.cc_rwout) && not (rw_touches_hidden (List.assoc srv !servers).sc_rwin) ->
                         check_hidden opidx pkt (bytes_of_hex p) ~ssecret:(List.assoc srv !servers).sc_secret ~sauth:(take 16 (drop 4 fb))
                           ~csecret:cc.cc_secret ~cauth:r.rq_rqauth
                     | _ -> ())
